@@ -1,0 +1,23 @@
+//go:build verif
+// +build verif
+
+// Read-only accessors used by the verification harness under /verif.
+// Compiled only with `-tags verif`; nothing here changes behaviour.
+
+package cache
+
+// VerifResident returns the number of entries resident in each shard.
+func (d *dispatcher) VerifResident() []int {
+	result := make([]int, len(d.list))
+	for i, item := range d.list {
+		item.mu.Lock()
+		result[i] = item.cache.Len()
+		item.mu.Unlock()
+	}
+	return result
+}
+
+// VerifZoneSize returns the number of shards.
+func (d *dispatcher) VerifZoneSize() uint64 {
+	return d.zoneSize
+}
